@@ -6,6 +6,7 @@
 package json
 
 import (
+	"net/netip"
 	"strconv"
 	"time"
 
@@ -13,6 +14,7 @@ import (
 )
 
 var _ time.Time
+var _ netip.Addr
 var _ = strconv.FormatInt
 var _ jx.Decoder
 
@@ -116,3 +118,25 @@ func numR(log []string) []byte { return []byte(log[len(log)-1]) }
 //@   requires enc: e != nil
 //@   modifies log:raw
 //@   ensures text: vSeqEq(vLogStr("raw"), vCat(old(vLogStr("raw")), []string{"\"" + strconv.FormatInt(int64(v), 10) + "\""}))
+
+// ---------------------------------------------------------------------------
+// IP addresses (C13): the decoder reads ONE string and answers with netip.ParseAddr of exactly that text -
+// no transformation of the parsed address (no unmapping, no zone stripping) - refusing it only for the
+// wrong IP version; the encoder writes netip.Addr.AppendTo of exactly the value.
+// ---------------------------------------------------------------------------
+
+//@ extern func (d *jx.Decoder) Str() (s string, err error)
+//@   effect strs s
+//@ extern func netip.ParseAddr(s string) (a netip.Addr, err error)
+//@   pure
+
+func specParseAddr(s string) netip.Addr {
+	a, _ := netip.ParseAddr(s)
+	return a
+}
+
+//@ func decodeIP(d *jx.Decoder, checkVersion func(addr netip.Addr) bool) (v netip.Addr, err error)
+//@   requires dec: d != nil
+//@   modifies log:strs, cb:checkVersion
+//@   ensures one:   err == nil ==> len(vLogStr("strs")) == len(old(vLogStr("strs"))) + 1
+//@   ensures exact: err == nil ==> v == specParseAddr(vLogStr("strs")[len(vLogStr("strs"))-1])
